@@ -10,6 +10,8 @@ import (
 	"os"
 	"path/filepath"
 	"sync"
+	"syscall"
+	"time"
 
 	"github.com/gabriel-vasile/mimetype"
 
@@ -160,6 +162,36 @@ func detectEntry(in []byte, limit uint32, entry string) *mimetype.MIME {
 		m, err := mimetype.DetectFile(l)
 		if err != nil {
 			panic("DetectFile returned an error for a symbolic link to a readable file: " + err.Error())
+		}
+		return m
+	case "DetectFilePipe": // the path names a FIFO; another goroutine writes the bytes into it and closes it
+		ff := filepath.Join(os.TempDir(), fmt.Sprintf("verif-entry-%d.fifo", os.Getpid()))
+		os.Remove(ff)
+		if syscall.Mkfifo(ff, 0o600) != nil {
+			return mimetype.Detect(in) // no FIFOs here: fall back to the plain entry point
+		}
+		defer os.Remove(ff)
+		done := make(chan struct{})
+		go func() {
+			defer close(done)
+			w, err := os.OpenFile(ff, os.O_WRONLY, 0)
+			if err != nil {
+				return
+			}
+			defer w.Close()
+			w.Write(in)
+		}()
+		m, err := mimetype.DetectFile(ff)
+		select {
+		case <-done:
+		case <-time.After(3 * time.Second): // harness liveness only: release a writer nobody opened the FIFO for
+			if rd, e := os.OpenFile(ff, os.O_RDONLY|syscall.O_NONBLOCK, 0); e == nil {
+				<-done
+				rd.Close()
+			}
+		}
+		if err != nil {
+			panic("DetectFile returned an error for a named pipe that a writer fills and closes: " + err.Error())
 		}
 		return m
 	case "DetectFile":
